@@ -131,6 +131,8 @@ def check(case):
         res.discard = 'ill-conditioned'
         return res
     rt = 1e-9 * max(1.0, cond)
+    # round-off floor of the linear solves (see C01): relative to the size of the terms that cancel in du/dx
+    floor = 1e-11 + 8 * np.finfo(float).eps * max(1.0, cond) * (1.0 + ref.totals_scale(u_ref, ref.x0))
     dvs = {d['name']: ref.var_positions(d['name'], d.get('indices'), d.get('flat_indices')) for d in spec['desvars']}
     rss = {r.get('alias') or r['name']: ref.var_positions(r['name'], r.get('indices'), r.get('flat_indices'))
            for r in spec['responses']}
@@ -152,7 +154,7 @@ def check(case):
             of, wrt = key.split('|')
             (ok, op, _), (wk, wp, _) = rss[of], dvs[wrt]
             Jr = ref.total_block(dudx, (ok, op), (wk, wp))
-            tol = rt * (float(np.max(np.abs(Jr))) if Jr.size else 0.0) + 1e-11
+            tol = rt * (float(np.max(np.abs(Jr))) if Jr.size else 0.0) + floor
             Ja, Jb = np.asarray(a['J'][key]), np.asarray(b['J'][key])
             if Ja.shape != Jr.shape or (Ja.size and float(np.max(np.abs(Ja - Jr))) > tol):
                 res.fail(f"totals:relevance-on-differs-from-reference", f"{mode} {key}: on {Ja.tolist()} ref {Jr.tolist()}")
@@ -183,7 +185,10 @@ def strategy(tier):
 
     @st.composite
     def case(draw):
-        spec = draw(model_spec(profile(p_imp=0.35, cyc_ln=['direct', 'krylov', 'krylov', 'lnbgs', 'lnbgs', 'lnbj'],
+        # relevance is decided on the dataflow graph: implicit components and sparse (partly undeclared) partials are
+        # where it can go wrong, so they are drawn more often than in the other model-based checks
+        spec = draw(model_spec(profile(p_imp=0.5, styles=['dense', 'sparse', 'sparse', 'sparse', 'matfree'],
+                                       cyc_ln=['direct', 'krylov', 'krylov', 'lnbgs', 'lnbgs', 'lnbj'],
                                        max_comps=5, min_comps=3)))
         outs = [('.'.join(c['path'] + [c['name'], v['name']]), v['shape']) for c in spec['comps'] if c['kind'] != 'ivc'
                 for v in c['outputs']]
